@@ -18,7 +18,12 @@ type StepRig struct {
 	Ref            ref.CPU
 	fillSeed       uint64
 	NilIO          bool
+	Chained        bool // keep the CPU object across cases (see Run)
+	chainLive      bool
 }
+
+// BreakChain makes the next Run start with a fresh CPU object.
+func (g *StepRig) BreakChain() { g.chainLive = false }
 
 func NewStepRig(fillSeed uint64) *StepRig {
 	g := &StepRig{}
@@ -80,9 +85,18 @@ func (g *StepRig) Run(c *StepCase) (out StepOutcome) {
 	g.RefIO.Reset(c.IOSeed)
 	g.RC = mon.RetCounter{}
 	hn, hi := g.RC.Handlers()
-	g.CPU = z80.CPU{States: c.Pre, Memory: &g.EmuMem, RETNHandler: hn, RETIHandler: hi}
-	if !g.NilIO {
-		g.CPU.IO = &g.EmuIO
+	if g.Chained && g.chainLive {
+		// chain mode: the same CPU object keeps running (any unexported
+		// per-instance state it may hold is carried over); only the public
+		// halted indication is cleared, as Run does
+		g.CPU.HALT = false
+		g.CPU.States = c.Pre
+	} else {
+		g.CPU = z80.CPU{States: c.Pre, Memory: &g.EmuMem, RETNHandler: hn, RETIHandler: hi}
+		if !g.NilIO {
+			g.CPU.IO = &g.EmuIO
+		}
+		g.chainLive = g.Chained
 	}
 
 	// reference first (it cannot panic on in-scope encodings)
